@@ -257,6 +257,9 @@ def ob_threshold_validation(run, oid):
                 for fb in prog.family(cl[0][1]):
                     flds |= set(n for (_bb, ow, n, _sp) in fb.field_reads() if ow.endswith(st))
                     calls |= fb.mentioned_fns()
+                # what the closure captured (e.g. a reference to the aggregate taken outside the closure)
+                for (_nm, cap) in cl[0][2]:
+                    flds |= set(n for (ow, n) in b.provenance(cap, depth=8)["fields"] if ow.endswith(st) and n != "stake")
                 o.check(flds == set(halves) and any(x.endswith("AggregateSignature::is_signer") for x in calls), "%s::check_threshold|membership" % st,
                         "a validator counts iff is_signer in {%s}" % ", ".join(halves), b.span, {"fields": sorted(flds)})
                 if len(halves) == 2 and cbody is not None:
